@@ -60,11 +60,13 @@ def run_witness(unit, seed=0, only=None):
             raise R.Infra(f"{unit['name']}: witness module does not compile against the current tree:\n{p.stderr[-2500:]}")
         fails = []
         for line in out.split("\n"):
-            if line.startswith("WITNESS-FAIL "):
+            # (the first line printed by a test shares its line with cargo's "test <name> ... " prefix)
+            k = line.find("WITNESS-FAIL ")
+            if k >= 0:
                 try:
-                    fails.append(json.loads(line[len("WITNESS-FAIL "):]))
+                    fails.append(json.loads(line[k + len("WITNESS-FAIL "):]))
                 except Exception:
-                    fails.append({"raw": line})
+                    fails.append({"raw": line[k:]})
         m = re.search(r"WITNESS-DONE cases=(\d+)", out)
         cases = int(m.group(1)) if m else 0
         if cases == 0 and not fails:
